@@ -69,7 +69,30 @@ func Phased(e *Env, build func(*Env), final func(*Env)) {
 	phase := 1
 	build(e)
 	e.AtQuiescence = func() bool {
-		if phase >= e.Plan.X("uses") || e.Cancelled.Load() || e.Viol != nil {
+		if phase >= e.Plan.X("uses") || e.Viol != nil {
+			return false
+		}
+		if e.Plan.X("cancel_between") == 1 {
+			// the first use is cancelled once it is quiet, winds down, is
+			// judged, and the second use starts under a fresh context
+			if !e.Cancelled.Load() {
+				e.Cancel("between uses")
+				return true
+			}
+			e.Quiescent = true
+			e.Tasks = e.S.Snapshot()
+			final(e)
+			e.Quiescent = false
+			if e.Viol != nil {
+				return false
+			}
+			phase++
+			e.Probe("second_use_after_cancel")
+			e.ResetContext()
+			build(e)
+			return true
+		}
+		if e.Cancelled.Load() {
 			return false
 		}
 		e.Quiescent = true
@@ -85,6 +108,17 @@ func Phased(e *Env, build func(*Env), final func(*Env)) {
 		return true
 	}
 }
+
+// ResetContext gives the run a fresh, uncancelled context (phased runs).
+func (e *Env) ResetContext() {
+	ctx, cancel := context.WithCancel(context.Background())
+	e.Ctx, e.cancel = ctx, cancel
+	e.Cancelled.Store(false)
+	e.S.Watch(ctx.Done(), &e.Cancelled)
+}
+
+// CancelNow cancels the current context without recording a fault (clean-up).
+func (e *Env) CancelNow() { e.cancel() }
 
 // FailPost records a violation found after the bubble ended.
 func (e *Env) FailPost(clause, class, format string, args ...any) {
